@@ -216,6 +216,18 @@ def main(tier, seed):
             if what:
                 oracle_fail += 1
                 res.violation(what, {"input_file": mp, "replay": "EXPRESS_PATH=%s check-express %s" % (os.path.join(mdir, "lib"), mp)})
+    # ---- a warning that quotes a number: the number is the one in the input, not a rounding of it to something else
+    wp = os.path.join(wdir, "small_real.exp")
+    open(wp, "w").write("SCHEMA small_real;\nENTITY e;\n  r : REAL;\nWHERE\n  wr1 : r > 1.0e-45;\n  wr2 : r < 2.5E-39;\nEND_ENTITY;\nEND_SCHEMA;\n")
+    rc, diags, files, txt = run_tool(bdir, "check-express", wp, wdir, opts=("-w", "limits"))
+    evals += 1
+    quoted = [float(x) for x in re.findall(r"fabs\(([^)]*)\)", txt) if re.match(r"^[0-9.eE+-]+$", x)]
+    for want in (1.0e-45, 2.5e-39):
+        hist["quoted_number"] = hist.get("quoted_number", 0) + 1
+        if not any(q_ != 0 and abs(q_ - want) <= 1e-3 * want for q_ in quoted):
+            oracle_fail += 1
+            res.violation("the warning about the literal %g quotes %s" % (want, re.findall(r"fabs\([^)]*\)", txt)[:3] or "no number at all"),
+                          {"input_file": wp, "replay": "check-express -w limits %s" % wp})
     # ---- every call site passes as many arguments as the message of the diagnostic has conversions (static scan of /repo)
     def split_args(txt):
         out_, d_, cur_ = [], 0, ""
